@@ -293,3 +293,16 @@ mut("c14_kernel_cross_factor", AC, '''            quadratic_integral
     ) -> Union[callable, Float[Array, "R Dy"]]:''', ["C14"])
 mut("c14_log_factor_linear_term", FA, '''        linear_integral = jnp.einsum("ab,ab->a", self.nu, phi_x.integrate("x"))''',
     '''        linear_integral = jnp.einsum("ab,ab->a", self.nu, phi_x.integrate("x")) * 0.5''', ["C14"])
+# ---- C20
+mut("c20_recursion_factor", TR, "L_new = -(beta_pdf - alpha_pdf) / denominator + (k - 1) * L2", "L_new = -(beta_pdf - alpha_pdf) / denominator + k * L2", ["C20"])
+mut("c20_boundary_sign", TR, '''        mean = self.density.mu + (
+            normal_pdf(self.alpha) - normal_pdf(self.beta)
+        )''', '''        mean = self.density.mu + (
+            normal_pdf(self.beta) - normal_pdf(self.alpha)
+        )''', ["C20"])
+mut("c20_binom_order", TR, '''            moments = jnp.sum(
+                binom(order, k_range)''', '''            moments = jnp.sum(
+                binom(order + 1, k_range)''', ["C20"])
+mut("c20_open_upper_limit", TR, '''                    jnp.greater_equal(x[None], self.lower_limit[:, None]),
+                    jnp.less_equal(x[None], self.upper_limit[:, None]),''', '''                    jnp.greater_equal(x[None], self.lower_limit[:, None]),
+                    jnp.less(x[None], self.upper_limit[:, None]),''', ["C20"])
